@@ -73,8 +73,9 @@ def run(ctx):
         ctx.prove("props/C10.v")
     else:
         ctx.obligation("coq-build(C10)", False, out[-3000:])
-        if not tr_ok:
-            return
+        # keep searching for a failing input: the streams below compare the implementation with the
+        # relational semantics and the exact oracle; the model of the algorithm is used only if the
+        # last successfully generated machines still build
         ok2, _ = ctx.build(["model/FstCompose.vo", "model/EpsSpec.vo"])
         if not ok2:
             return
@@ -142,6 +143,25 @@ def run(ctx):
             ctab.want((i, tuple(x), tuple(z)), f"@trel QcSR (@fcompose QcSR [0%nat; 1%nat] 2%nat 3%nat {M}%nat {fn} {gn}) {fuel} {coq_str(x)} {coq_str(z)}")
         cplan.append((i, f, g, pairs))
         ctx.dist("compose:" + ("f-smaller" if len(F.fst_states(f)) < len(F.fst_states(g)) else "g-smaller-or-equal"))
+    # crafted pairs: m epsilon-output moves of f and n epsilon-input moves of g in the same gap
+    # (exactly one matching path pair each; this is where a wrong filter double counts)
+    base = 1000
+    for mm_ in range(0, 4):
+        for nn_ in range(0, 4):
+            f = {"nA": 2, "nB": 2, "init": [[0, "1/2"]], "final": [[mm_ + 1, "1/3"]],
+                 "arcs": [[k, 0, None, k + 1, F.fs(Fraction(1, k + 2))] for k in range(mm_)] + [[mm_, 1, 1, mm_ + 1, "1/5"]]}
+            g = {"nA": 2, "nB": 2, "init": [[0, "1/7"]], "final": [[nn_ + 1, "1/2"]],
+                 "arcs": [[k, None, 0, k + 1, F.fs(Fraction(1, k + 3))] for k in range(nn_)] + [[nn_, 1, 1, nn_ + 1, "2/3"]]}
+            if mm_ % 2 == 1:  # exercise the other association order too
+                g["arcs"].append([nn_ + 1, 0, 0, nn_ + 2, "1/9"])
+                g["arcs"].append([nn_ + 2, 0, 0, nn_ + 3, "1/9"])
+            x, z = [0] * mm_ + [1], [0] * nn_ + [1]
+            i = base
+            base += 1
+            fn, gn = ctab.transducer(f), ctab.transducer(g)
+            ctab.want((i, tuple(x), tuple(z)), f"@trel QcSR (@fcompose QcSR [0%nat; 1%nat] 2%nat 3%nat 8%nat {fn} {gn}) {len(x) + len(z) + 6} {coq_str(x)} {coq_str(z)}")
+            cplan.append((i, f, g, [(x, z)]))
+            ctx.dist("compose:crafted-eps-gap")
     ctab.eval()
     res = run_w([{"queries": [{"op": "fst_compose", "f": f, "g": g, "pairs": pairs, "timeout": 30}]} for i, f, g, pairs in cplan])
     for (i, f, g, pairs), r in zip(cplan, res):
